@@ -5,8 +5,10 @@ use std::cmp::Ordering;
 
 mod apath_ops;
 mod backupops;
+mod diffops;
 mod gcops;
 mod rawarchive;
+mod restoreops;
 mod roundtrip;
 
 fn main() {
@@ -20,6 +22,8 @@ fn main() {
         "roundtrip" => roundtrip::run(&sc),
         "gc" => gcops::run(&sc),
         "backup" => backupops::run(&sc),
+        "diff" => diffops::run(&sc),
+        "restore_raw" => restoreops::run(&sc),
         other => json!({"error": format!("unknown scenario kind {other}")}),
     };
     println!("{}", serde_json::to_string(&out).unwrap());
